@@ -19,6 +19,7 @@ import Drv.Conv
 import Drv.Quasigo
 import Drv.SrcLoad
 import Drv.Sink
+import Drv.SrcGroup
 /-!
 Line-protocol driver: one operation per line on stdin, one canonical answer line on stdout.
 Every engine exports `handle : List String → Option String` answering only its own ops;
@@ -47,7 +48,8 @@ def handlers : List (List String → Option String) := [
   Drv.ConvE.handle,
   Drv.Quasigo.handle,
   Drv.SrcLoadD.handle,
-  Drv.SinkD.handle
+  Drv.SinkD.handle,
+  Drv.SrcGroupD.handle
 ]
 
 def dispatch (fs : List String) : Option String :=
